@@ -654,6 +654,7 @@ class Program:
         self.consts = {}
         self.sigs = {}
         self.unsafe = []
+        self.ext_enums = {}  # path -> {variants: [{name, idx, discr}]} for enums of other crates whose discriminant is read
         files = sorted(glob.glob(os.path.join(facts_dir, "*.json")))
         if not files:
             raise AnalysisError("no fact files in %s" % facts_dir)
@@ -676,6 +677,8 @@ class Program:
                 self.adts_by_target[tname][a["path"]] = a
                 if tname == "lib":
                     self.adts[a["path"]] = a
+            for e in doc.get("ext_enums", []):
+                self.ext_enums[e["path"]] = e
             for i in doc["impls"]:
                 i = dict(i)
                 i["target"] = tname
